@@ -415,8 +415,10 @@ pub fn c33(out: &mut Out, ex: &mut Exec, seed: u64, thorough: bool) {
                 (_, None) => (rng.below(100) < p_lock, rng.below(100) < p_lock),
                 _ => (false, false),
             };
-            if want_k != kl { let l = format!("sim lock kb {}", want_k as u8); let r = ex.line(&l); out.op(&l, &r); v.push(l); kl = want_k; }
-            if want_d != dl { let l = format!("sim lock ds {}", want_d as u8); let r = ex.line(&l); out.op(&l, &r); v.push(l); dl = want_d; }
+            // every third case holds shared (read) guards instead of exclusive ones: any guard makes try_write fail
+            let kind: u8 = if id % 3 == 2 { 2 } else { 1 };
+            if want_k != kl { let l = format!("sim lock kb {}", if want_k { kind } else { 0 }); let r = ex.line(&l); out.op(&l, &r); v.push(l); kl = want_k; }
+            if want_d != dl { let l = format!("sim lock ds {}", if want_d { kind } else { 0 }); let r = ex.line(&l); out.op(&l, &r); v.push(l); dl = want_d; }
             if let Some(t) = dev { if (t == 0xFE02 && kl) || (t == 0xFE06 && dl) { denied_critical.push(t); } out.hist.hit(&format!("device_access_{:04x}_{}", t, if (t <= 0xFE02 && kl) || (t >= 0xFE04 && dl) { "denied" } else { "free" })); }
             last = ex.line("sim step"); out.op("sim step", &last); v.push("sim step".into());
             out.evaluations += 1;
@@ -435,5 +437,5 @@ pub fn c33(out: &mut Out, ex: &mut Exec, seed: u64, thorough: bool) {
         if seen.insert(crate::simx::fnv(v.iter().flat_map(|l| l.bytes().map(|b| b as u64)))) && (kl || dl || v.iter().any(|l| l.starts_with("sim lock"))) { out.nontrivial += 1; }
         if out.samples.len() < 2 { let mut s = Json::obj(); s.set("input", Json::s(expect.clone())); s.set("locks", Json::Arr(v.iter().filter(|l| l.starts_with("sim lock")).take(12).map(|x| Json::s(x.clone())).collect())); s.set("display", Json::s(ds.clone())); out.sample(s); }
     }
-    out.rule = "GETC/OUT echo programs (input length 1-3, every 10th up to 30) + PUTS, virtual HALT; the harness holds the keyboard / display buffer write-lock in its own thread around chosen step_in calls (try_write then fails deterministically): for short inputs a 16-bit pattern over the first 16 device accesses of the OS routines (KBSR/KBDR/DSR/DDR, identified by PC), otherwise random per-step patterns; every step compared with the model; oracle: display = input bytes exactly once in order, keyboard empty; failures with a lock held at a KBDR read or DDR store are the recorded finding F19".into();
+    out.rule = "GETC/OUT echo programs (input length 1-3, every 10th up to 30) + PUTS, virtual HALT; the harness holds the keyboard / display buffer lock (an exclusive write guard, or in every third case a shared read guard) around chosen step_in calls (try_write then fails deterministically): for short inputs a 16-bit pattern over the first 16 device accesses of the OS routines (KBSR/KBDR/DSR/DDR, identified by PC), otherwise random per-step patterns; every step compared with the model; oracle: display = input bytes exactly once in order, keyboard empty; failures with a lock held at a KBDR read or DDR store are the recorded finding F19".into();
 }
